@@ -23,9 +23,10 @@ Print Assumptions C13_reachable_shared.
 (* the full bookkeeping invariant - shared objects, the dataset's dimensions are exactly those used by
    its variables, distinct dimension names, distinct keys - for histories over the WHOLE alphabet: assignments (new
    or replacing, with fewer / more / other dimensions), deletions, relabellings, ds.dims = and rename_axes (simultaneous,
-   through the validated dims setter: no side condition), construction from a dict, and - with [op_ok]: the new name is
+   through the validated dims setter), rename_keys of one key (onto a free key or onto the key of another variable, which
+   is then deleted first), construction from a dict: all without side condition; and - with [op_ok]: the new name is
    fresh or unchanged at the moment it is given - renames of one axis (through the dataset or through a variable),
-   set_axis(name=), axis replacements, rename_keys of one key, and rename_keys of several keys at once (simultaneous;
+   set_axis(name=), axis replacements, and rename_keys of several keys at once (simultaneous;
    [renkeys_ok]: old keys given once, new keys distinct and not among the keys that stay - a swap or a cycle qualifies) *)
 Theorem C13_step_invariant : forall s o, Inv4 s -> op_ok s o -> Inv4 (fst (ds_step s o)).
 Proof. exact step_inv. Qed.
